@@ -14,8 +14,11 @@ def _slug(s):
 
 
 def write_replay(prop, ob, seed=0):
-    os.makedirs(os.path.join(VERIF, "replays"), exist_ok=True)
-    path = os.path.join(VERIF, "replays", f"{prop}-{_slug(ob['name'])}.json")
+    rdir = os.path.join(VERIF, "replays")
+    if os.environ.get("SYMJNP_EVIDENCE_DIR"):  # runs on scratch copies keep their output out of /verif/replays
+        rdir = os.path.join(VERIF, "replays", "scratch-" + os.path.basename(os.environ.get("VERIF_REPO", "repo")))
+    os.makedirs(rdir, exist_ok=True)
+    path = os.path.join(rdir, f"{prop}-{_slug(ob['name'])}.json")
     rec = {"property": prop, "obligation": ob["name"], "kind": ob["kind"], "item": ob.get("item"),
            "model": ob.get("model"), "solver_output": ob.get("smt2", "")[:20000], "backend": ob.get("backend"),
            "native": None, "confirmed": False, "written": time.strftime("%Y-%m-%dT%H:%M:%S")}
